@@ -769,6 +769,16 @@ impl FromStr for FormatSpec {
     }
 }
 
+/// An index is a run of digits; unlike `usize::from_str`, Python does not accept a leading '+'
+/// ("{0[+1]}" looks up the key "+1").
+fn parse_index(text: &str) -> Option<usize> {
+    if text.starts_with('+') {
+        None
+    } else {
+        text.parse::<usize>().ok()
+    }
+}
+
 #[derive(Debug, PartialEq)]
 pub enum FieldNamePart {
     Attribute(String),
@@ -800,7 +810,7 @@ impl FieldNamePart {
                         if ch == ']' {
                             return if index.is_empty() {
                                 Err(FormatParseError::EmptyAttribute)
-                            } else if let Ok(index) = index.parse::<usize>() {
+                            } else if let Some(index) = parse_index(&index) {
                                 Ok(FieldNamePart::Index(index))
                             } else {
                                 Ok(FieldNamePart::StringIndex(index))
@@ -839,7 +849,7 @@ impl FieldName {
 
         let field_type = if first.is_empty() {
             FieldType::Auto
-        } else if let Ok(index) = first.parse::<usize>() {
+        } else if let Some(index) = parse_index(&first) {
             FieldType::Index(index)
         } else {
             FieldType::Keyword(first)
